@@ -19,7 +19,7 @@ INFO = {
                    'delimiter, unparseable ANALYSIS -> warning and {}.',
     'functions': ['FlowCal.io.read_fcs_text_segment', 'FlowCal.io.FCSFile.__init__ (TEXT / '
                   'supplemental TEXT / ANALYSIS call sites)'],
-    'bounds': {'quick': {'differential': 'segments of <= 7 characters over a 3-symbol alphabet',
+    'bounds': {'quick': {'differential': 'segments of <= 8 characters over a 3-symbol alphabet',
                          'round_trip': '2 pairs; first key and value with 3 chunks and delimiter '
                                        'runs of 0..2 between/after chunks; 4 delimiters'},
                'thorough': {'differential': '<= 11 characters', 'round_trip': 'runs of 0..3'}},
@@ -236,7 +236,7 @@ def make_round(maxrun, supplemental, two):
 
 def conditions(tier):
     q = tier == 'quick'
-    L = 7 if q else 11
+    L = 8 if q else 11
     mr = 2 if q else 3
     from . import c01
     cs = [
